@@ -289,7 +289,7 @@ def run(ctx):
                 "solver_options, constraint lists, ignore lists, error_scaling dicts (with factor 0), additional starts/ends, number / subset "
                 "lists; each argument is passed or omitted (shared defaults); non-trivial = at least two classes; distinct by the operation list")
     n_hist = ctx.budget(150, 3000)
-    reqs = []; hists = []
+    reqs = []; hists = []; hist_sh = {}
     # switch of the faithful model: the list-aliasing finding is open (summary of the code that keeps the caller's list) or fixed
     ext_open = ctx.open_finding(EXT_FINDING) is not None
     for i in range(n_hist):
@@ -330,7 +330,7 @@ def run(ctx):
             cid, passes = model_cls_id(s["op"])
             mops.append([cid, passes, s["op"]["sup"], s["has_cons"], s["op"]["solve"]])
         reqs.append("effects " + common.toks(ext_open, EXT_KEY in init["opts"], len(init_keys), init_keys, len(ops), mops))
-        hists.append((i, ops, init, steps, res_fresh, exc_fresh))
+        hists.append((i, ops, init, steps, res_fresh, exc_fresh)); hist_sh[i] = sh
     outs = ctx.model.run(reqs)
     for (i, ops, init, steps, res_fresh, exc_fresh), req, out in zip(hists, reqs, outs):
         classes = [o["cls"] for o in ops]
@@ -377,7 +377,24 @@ def run(ctx):
         # (3) history independence of the last model
         last = steps[-1]
         ctx.count("history_independence", "cases")
-        if (last["result"], bool(last["exc"])) != (res_fresh, bool(exc_fresh)):
+        differs = (last["result"], bool(last["exc"])) != (res_fresh, bool(exc_fresh))
+        if differs and not (polluted or polluted_ext):
+            # before reporting: is the difference a property of the history at all?  Replay the whole history on new shared
+            # objects holding the initial values and repeat the fresh-argument run; identical constructions that disagree
+            # with THEMSELVES are solver nondeterminism (observed under heavy machine load), not an effect of the history
+            sh2 = Shared.fresh_from(hist_sh[i], init)
+            last2 = None
+            for op in ops:
+                last2 = run_op(op, kwargs_for(op, sh2))
+            fresh2 = run_op(ops[-1], kwargs_for(ops[-1], Shared.fresh_from(hist_sh[i], init)))
+            same_hist = (last2[0], bool(last2[2])) == (last["result"], bool(last["exc"]))
+            same_fresh = (fresh2[0], bool(fresh2[2])) == (res_fresh, bool(exc_fresh))
+            hist_now_equals_fresh = (last2[0], bool(last2[2])) == (res_fresh, bool(exc_fresh))
+            if not same_fresh:
+                ctx.count("solver_specification", "identical_fresh_constructions_disagree_with_each_other"); differs = False
+            elif not same_hist and hist_now_equals_fresh:
+                ctx.count("solver_specification", "history_result_not_reproducible_replay_equals_fresh"); differs = False
+        if differs:
             key = ("history:result-differs:optimization_options-polluted" if polluted else
                    ("history:result-differs:external_safe_paths-extended" if polluted_ext else None))
             ctx.report("the last model of the history (%s) differs from the same construction with fresh arguments: %s vs %s"
